@@ -11,7 +11,8 @@
 // Modes
 //   PASS  operations go straight to the underlying real std::atomic / std::thread (no instrumentation)
 //   CTRL  exactly one thread runs at a time; before every atomic operation / spawn / join / task body the
-//         thread parks at a scheduling point and continues only when the controller grants it one step.
+//         thread parks at a scheduling point and continues only when the controller grants it one step
+//         (hand-off through per-thread flags; the controlled threads are carried by reusable OS threads).
 //         wait/notify follow the C++20 semantics without spurious wake-ups: a waiter whose check fails
 //         sleeps until a notify_all on the same atomic makes it re-check.
 //   FREE  real threads; a seeded per-thread generator injects yields / short sleeps before every
